@@ -263,7 +263,8 @@ ARITH_BIN = {
     "pow": lambda x, y: x ** y, "min": lambda x, y: x.minimum(y), "max": lambda x, y: x.maximum(y),
     "radd": lambda x, y: y + x, "rsub": lambda x, y: y - x, "rmul": lambda x, y: y * x, "rdiv": lambda x, y: y / x,
 }
-ARITH_UN = {"neg": lambda x: -x, "abs": lambda x: abs(x), "absm": lambda x: x.abs(), "sign": lambda x: x.sign()}
+ARITH_UN = {"neg": lambda x: -x, "abs": lambda x: abs(x), "absm": lambda x: x.abs(), "sign": lambda x: x.sign(),
+            "absm_kw": lambda x: x.abs(inplace=False), "sign_pos": lambda x: x.sign(False)}
 
 
 def op_arith(st, op, info):
@@ -315,17 +316,24 @@ def op_reduce(st, op, info):
         return d.letter if form == "letter" else (d.name if form == "name" else d)
 
     keys = tuple(keyf(d) for d in sel)
+    style = (op.get("s", 0) + op.get("rot", 0)) % 3   # the ways a caller writes it: positional, by keyword, default left out
     if f == "sum_to":
-        r = call(st, op, lambda: x.sum_to(keys), info)
+        if not keys and style == 0:
+            r = call(st, op, lambda: x.sum_to(), info)
+        else:
+            r = call(st, op, (lambda: x.sum_to(result_dims=keys)) if style == 1 else (lambda: x.sum_to(keys)), info)
     elif f == "sum_over":
-        r = call(st, op, lambda: x.sum_over(keys), info)
+        if not keys and style == 0:
+            r = call(st, op, lambda: x.sum_over(), info)
+        else:
+            r = call(st, op, (lambda: x.sum_over(sum_over_dims=keys)) if style == 1 else (lambda: x.sum_over(keys)), info)
     elif f == "shares":
         r = call(st, op, lambda: x.get_shares_over(tuple(d.letter for d in sel)), info)
     elif f == "cumsum":
         if not dims:
             return
         letter = dims[op.get("dims", [0])[0] % len(dims)].letter if op.get("dims") else dims[0].letter
-        r = call(st, op, lambda: x.cumsum(letter), info)
+        r = call(st, op, (lambda: x.cumsum(dim_letter=letter, inplace=False)) if style == 1 else ((lambda: x.cumsum(letter, False)) if style == 2 else (lambda: x.cumsum(letter))), info)
     elif f == "cast_to":
         extra = st._uniq(op.get("extra", []))
         have = [d.letter for d in dims]
@@ -342,7 +350,12 @@ def op_reduce(st, op, info):
         info.new_arrays_from_ctor = True
         r = call(st, op, lambda: x.cast_to(tds), info)
     elif f == "apply":
-        r = call(st, op, lambda: x.apply(np.negative), info)
+        if style == 1:
+            r = call(st, op, lambda: x.apply(func=np.negative, kwargs={}, inplace=False), info)
+        elif style == 2:
+            r = call(st, op, lambda: x.apply(np.clip, {"a_min": 0.0, "a_max": 5.0}), info)
+        else:
+            r = call(st, op, lambda: x.apply(np.negative), info)
     else:
         raise AssertionError(f)
     if info.outcome == "ret":
@@ -550,9 +563,9 @@ def op_inplace_unary(st, op, info):
     info.inplace = True
     info.target = t
     if f == "abs":
-        call(st, op, lambda: t.abs(inplace=True), info)
+        call(st, op, (lambda: t.abs(True)) if op.get("dim", 0) % 2 else (lambda: t.abs(inplace=True)), info)
     elif f == "sign":
-        call(st, op, lambda: t.sign(inplace=True), info)
+        call(st, op, (lambda: t.sign(True)) if op.get("dim", 0) % 2 else (lambda: t.sign(inplace=True)), info)
     else:
         dims = list(t.dims)
         if not dims:
